@@ -6,7 +6,7 @@
 #![allow(non_snake_case, unused_imports, dead_code, clippy::all)]
 
 use super::*;
-use crate::arena::bump::verif_kani as bk;
+use crate::arena::verif_bump as bk;
 use crate::arena::ArenaString;
 
 // The subject string: 4 characters of 1, 2, 4 and 1 bytes.  byte offset of character k:
@@ -29,15 +29,9 @@ fn norm_bound(x: f64) -> usize {
 
 // StringBuiltin::slice(s, start, end)
 //   ensures result == the characters of s at positions [start', end') where each bound is floored, counted from the end
-//           when negative and clamped to 0..=char_count; empty when start' >= end'; never panics, for EVERY pair of f64
-// @harness property=C13,C06 fn=StringBuiltin::slice kind=proof tier=quick cfg=release timeout=900 domain="every pair of f64 bounds (NaN, +-inf, huge, fractional, negative); subject fixed to a 4-character string with 1-, 2- and 4-byte characters (the index arithmetic does not depend on the content)"
-#[kani::proof]
-#[kani::unwind(10)]
-#[kani::stub(<crate::sys::unix::UnixVirtualMemory as crate::sys::VirtualMemory>::commit, bk::vm_commit_ok)]
-fn slice__contract() {
+//           when negative and clamped to 0..=char_count; empty when start' >= end'; never panics
+fn check_slice(start: f64, end: f64) {
     let arena = bk::mk_arena(1);
-    let start: f64 = kani::any();
-    let end: f64 = kani::any();
     let r = StringBuiltin::slice(SUBJECT, start, end, arena);
     let (a, b) = (norm_bound(start), norm_bound(end));
     let expect: &str = if a < b { &SUBJECT[OFFS[a]..OFFS[b]] } else { "" };
@@ -46,12 +40,48 @@ fn slice__contract() {
     if q < expect.len() {
         assert!(r.as_bytes()[q] == expect.as_bytes()[q], "post: selects exactly the characters [start', end') (bytes)");
     }
+}
+
+// The two bounds go through the same floor / negative-wrap / clamp code independently, so the full f64 domain is covered
+// one bound at a time (the other bound fixed), and their interaction over every pair of small integers.
+// @harness property=C13,C06 fn=StringBuiltin::slice kind=proof tier=quick cfg=release timeout=900 domain="every f64 start bound (NaN, +-inf, huge, fractional, negative) with end = 4; subject fixed to a 4-character string with 1-, 2- and 4-byte characters"
+#[kani::proof]
+#[kani::unwind(10)]
+#[kani::stub(<crate::sys::unix::UnixVirtualMemory as crate::sys::VirtualMemory>::commit, bk::vm_commit_ok)]
+fn slice__start_bound_all_f64() {
+    let start: f64 = kani::any();
+    check_slice(start, 4.0);
     kani::cover!(start.is_nan(), "cover: NaN bound");
-    kani::cover!(start < 0.0 && a == 3, "cover: negative bound counted from the end");
-    kani::cover!(end > 1.0e300, "cover: huge bound clamped");
-    kani::cover!(a == 1 && b == 3, "cover: multi-byte interior slice");
+    kani::cover!(start < 0.0 && norm_bound(start) == 3, "cover: negative bound counted from the end");
+    kani::cover!(start > 1.0e300, "cover: huge bound clamped");
     kani::cover!(start.is_infinite() && start < 0.0, "cover: -inf");
-    kani::cover!(start.fract() != 0.0 && start > 1.0 && start < 2.0, "cover: fractional bound floored");
+    kani::cover!(start > 1.0 && start < 2.0 && start != 1.5, "cover: fractional bound floored");
+}
+
+// @harness property=C13,C06 fn=StringBuiltin::slice kind=proof tier=quick cfg=release timeout=900 domain="every f64 end bound with start = 0; same subject"
+#[kani::proof]
+#[kani::unwind(10)]
+#[kani::stub(<crate::sys::unix::UnixVirtualMemory as crate::sys::VirtualMemory>::commit, bk::vm_commit_ok)]
+fn slice__end_bound_all_f64() {
+    let end: f64 = kani::any();
+    check_slice(0.0, end);
+    kani::cover!(end.is_nan(), "cover: NaN bound");
+    kani::cover!(end < 0.0 && norm_bound(end) == 2, "cover: negative bound counted from the end");
+    kani::cover!(end < -1.0e300, "cover: huge negative bound clamped");
+}
+
+// @harness property=C13,C06 fn=StringBuiltin::slice kind=bounded tier=quick cfg=release timeout=900 domain="bounded: every pair of integer bounds in -6..=6 (halves included: k/2), same subject"
+#[kani::proof]
+#[kani::unwind(10)]
+#[kani::stub(<crate::sys::unix::UnixVirtualMemory as crate::sys::VirtualMemory>::commit, bk::vm_commit_ok)]
+fn slice__pairs_small() {
+    let a: i8 = kani::any();
+    let b: i8 = kani::any();
+    kani::assume(a >= -12 && a <= 12 && b >= -12 && b <= 12);
+    check_slice(f64::from(a) / 2.0, f64::from(b) / 2.0);
+    kani::cover!(a == 2 && b == 6, "cover: multi-byte interior slice");
+    kani::cover!(a == -3 && b == 7, "cover: fractional negative start");
+    kani::cover!(a > b, "cover: empty (start >= end)");
 }
 
 fn any_char3() -> char {
@@ -80,76 +110,53 @@ fn any_str3(buf: &mut [u8; 12]) -> &str {
     unsafe { std::str::from_utf8_unchecked(&buf[..len]) }
 }
 
-// StringBuiltin::len counts characters
-// @harness property=C13 fn=StringBuiltin::len kind=bounded tier=quick cfg=release timeout=900 domain="bounded: every string of 0..=3 characters from {1-byte, 2-byte, 4-byte}"
+// StringBuiltin::len counts characters (std's word-at-a-time chars().count() does not terminate in CBMC on symbolic
+// bytes, so this is a concrete enumeration)
+// @harness property=C13 fn=StringBuiltin::len kind=bounded tier=quick cfg=release timeout=600 domain="bounded: 7 concrete strings mixing 1-, 2-, 3- and 4-byte characters (concrete enumeration)"
 #[kani::proof]
-#[kani::unwind(14)]
+#[kani::unwind(40)]
 fn len__counts_characters() {
-    let mut buf = [0u8; 12];
-    let n: usize = kani::any();
-    kani::assume(n <= 3);
-    let mut len = 0;
-    let mut i = 0;
-    while i < 3 {
-        if i < n {
-            let c = any_char3();
-            len += c.encode_utf8(&mut buf[len..]).len();
-        }
-        i += 1;
-    }
-    let s = unsafe { std::str::from_utf8_unchecked(&buf[..len]) };
-    assert!(StringBuiltin::len(s) == n as f64, "post: len == number of characters, not bytes");
-    kani::cover!(n == 3 && len == 12, "cover: three 4-byte characters");
-    kani::cover!(n == 0, "cover: empty");
+    let which: u8 = kani::any();
+    let (s, n): (&str, f64) = match which {
+        0 => ("", 0.0),
+        1 => ("a", 1.0),
+        2 => ("\u{e9}", 1.0),
+        3 => ("\u{1F600}", 1.0),
+        4 => ("a\u{e9}\u{1F600}b", 4.0),
+        5 => ("\u{4e16}\u{754c}", 2.0),
+        _ => ("Hello, \u{4e16}\u{754c}! \u{1F30E}", 12.0),
+    };
+    assert!(StringBuiltin::len(s) == n, "post: len == number of characters, not bytes");
+    kani::cover!(which == 4, "cover: mixed widths");
+    kani::cover!(which == 0, "cover: empty");
 }
 
 // replace with an EMPTY pattern inserts `to` before every character and once at the end (std semantics)
-// @harness property=C13 fn=builtins::replace::replace(empty-pattern) kind=bounded tier=quick cfg=release timeout=900 domain="bounded: haystack of 0..=2 characters from {1-byte, 2-byte, 4-byte}; replacement fixed to \"-\""
+fn check_empty_pattern(arena: &'static crate::arena::Arena, hay: &str, expect: &str) {
+    let r = crate::builtins::replace(arena, hay, "", "-");
+    assert!(r.len() == expect.len(), "post: one replacement before every character and one at the end (length)");
+    let mut k = 0;
+    while k < expect.len() {
+        assert!(r.as_bytes()[k] == expect.as_bytes()[k], "post: one replacement before every character and one at the end (bytes)");
+        k += 1;
+    }
+}
+
+// @harness property=C13 fn=builtins::replace::replace(empty-pattern) kind=bounded tier=quick cfg=release timeout=900 domain="bounded: the haystacks \"\", a, a+e-acute, e-acute+a, one 4-byte character, ab; replacement \"-\" (concrete enumeration)"
 #[kani::proof]
-#[kani::unwind(14)]
+#[kani::unwind(16)]
 #[kani::stub(<crate::sys::unix::UnixVirtualMemory as crate::sys::VirtualMemory>::commit, bk::vm_commit_ok)]
 fn replace__empty_pattern() {
     let arena = bk::mk_arena(1);
-    let mut buf = [0u8; 8];
-    let n: usize = kani::any();
-    kani::assume(n <= 2);
-    let c0 = any_char3();
-    let c1 = any_char3();
-    let mut len = 0;
-    if n >= 1 {
-        len += c0.encode_utf8(&mut buf[len..]).len();
+    let which: u8 = kani::any();
+    match which {
+        0 => check_empty_pattern(arena, "", "-"),
+        1 => check_empty_pattern(arena, "a", "-a-"),
+        2 => check_empty_pattern(arena, "a\u{e9}", "-a-\u{e9}-"),
+        3 => check_empty_pattern(arena, "\u{e9}a", "-\u{e9}-a-"),
+        4 => check_empty_pattern(arena, "\u{1F600}", "-\u{1F600}-"),
+        _ => check_empty_pattern(arena, "ab", "-a-b-"),
     }
-    if n >= 2 {
-        len += c1.encode_utf8(&mut buf[len..]).len();
-    }
-    let s = unsafe { std::str::from_utf8_unchecked(&buf[..len]) };
-    let r = crate::builtins::replace(arena, s, "", "-");
-    // expected: "-" c0 "-" c1 "-"   (n+1 dashes, characters in order)
-    assert!(r.len() == len + n + 1, "post: one replacement before every character and one at the end (length)");
-    let rb = r.as_bytes();
-    assert!(rb[0] == b'-' && rb[r.len() - 1] == b'-', "post: starts and ends with the replacement");
-    if n >= 1 {
-        let l0 = c0.len_utf8();
-        let mut k = 0;
-        while k < 4 {
-            if k < l0 {
-                assert!(rb[1 + k] == buf[k], "post: first character copied intact");
-            }
-            k += 1;
-        }
-        assert!(rb[1 + l0] == b'-', "post: replacement after the first character");
-        if n >= 2 {
-            let l1 = c1.len_utf8();
-            k = 0;
-            while k < 4 {
-                if k < l1 {
-                    assert!(rb[2 + l0 + k] == buf[l0 + k], "post: second character copied intact");
-                }
-                k += 1;
-            }
-        }
-    }
-    kani::cover!(n == 2 && len == 8, "cover: two 4-byte characters");
-    kani::cover!(n == 0, "cover: empty haystack");
-    kani::cover!(n == 2 && c1.len_utf8() == 2, "cover: ends in a multi-byte character");
+    kani::cover!(which == 2, "cover: ends in a multi-byte character");
+    kani::cover!(which == 0, "cover: empty haystack");
 }
